@@ -164,12 +164,12 @@ func firstPos(c *Ctx, fn *ssa.Function) string {
 // check is evaluated on the same program and its obligations for the given rules are counted here
 // under new rule names (a property that contains another property's clause decides it itself
 // instead of referring to the sibling check).
-func adopt(dst, src *report.Result, rules map[string]string, why string) {
+func adopt(dst, src *report.Result, rules map[string]string, why string, only ...func(report.Finding) bool) {
 	for from, to := range rules {
 		n := src.Instances[from]
 		bad := 0
 		for _, f := range src.Findings {
-			if f.Rule == from {
+			if f.Rule == from && (len(only) == 0 || only[0](f)) {
 				bad++
 				dst.Findings = append(dst.Findings, report.Finding{Property: dst.Property, Rule: to, Construct: f.Construct, Kind: f.Kind, Where: f.Where, Detail: f.Detail + " [" + why + "]"})
 			}
